@@ -15,6 +15,10 @@ PoliteNext == \/ Internal
               \/ (\E n \in inbox \cap pending : WriteCall("resp", n)) \/ WriteRet
               \/ (closedSend /\ wif = NoW /\ Exit(FALSE))
               \/ CbStep \/ CloseCall \/ CloseRet \/ WaitCall \/ WaitRet
+\* a conformant client that, at some point, goes quiet for good (answers nothing more, reads nothing more, stays)
+StallNext == \/ PoliteNext
+             \/ StallCall \/ WaitAbortRet
+             \/ (cpc = "mustexit" /\ Exit(FALSE))
 AtEnd == SendersDone /\ wpc = "ret" /\ cpc = "exited" /\ pdone
 Emit == AtEnd => PrintT("SCN " \o ToJson([hist |-> hist]))
 =============================================================================
